@@ -261,7 +261,8 @@ def renumber_cases():
             types = G.KINDS[p][0]
             slots = [i for i, t in enumerate(types) if t in ('any', 'cond')]
             for sl in (slots[0], slots[-1]):
-                for alone in ('get_value_c', 'get_value_and_derivatives', 'values_from_database'):
+                for alone in ('get_value_c', 'get_value_and_derivatives', 'values_from_database',
+                              'refused:hessian-without-gradient', 'refused:variables-without-database'):
                     for then in ('simulate', 'prepared'):
                         out.append((si, p, sl, alone, then))
     return out
@@ -308,6 +309,19 @@ def _renumber(idx, rec):
         elif alone == 'get_value_and_derivatives':
             sub_e.get_value_and_derivatives(database=db, gradient=False, hessian=False, bhhh=False, aggregation=False,
                                             prepare_ids=True)
+        elif alone.startswith('refused:'):
+            # a request the library refuses with its own error: nothing is evaluated, and nothing may be left behind
+            from biogeme.exceptions import BiogemeError
+            try:
+                if alone == 'refused:hessian-without-gradient':
+                    sub_e.get_value_and_derivatives(database=db, gradient=False, hessian=True, bhhh=False, aggregation=False,
+                                                    prepare_ids=True)
+                else:
+                    sub_e.get_value_and_derivatives(database=None, gradient=False, hessian=False, bhhh=False, aggregation=False,
+                                                    prepare_ids=True)
+                rec.count('renumber_request_expected_to_be_refused_was_accepted')
+            except BiogemeError:
+                rec.count('renumber_refused_requests')
         else:
             db.values_from_database(sub_e)
         if then == 'simulate':
